@@ -70,3 +70,31 @@ Example C02_nonvacuous :
   = MOut (B "{""a"":{""y"":[1,{""q"":null}],""z"":{""w"":[null]}},""k"":""s"",""m"":{}}") /\
   api_merge false (B "[1]") (B " 2 ") = MOut (B " 2 ").
 Proof. vm_compute. split; reflexivity. Qed.
+
+(* ---- the main theorems applied: every hypothesis of C02_merge_refines_rfc and C02_merge_output_bytes
+   discharged on the document and patch of C02_nonvacuous (nulls at depth 1 and 2, a null inside an array,
+   a new object member that is pruned, a number outside float range); the patch is an object, so the theorem
+   yields its second branch ---- *)
+Definition C02_ex_doc := B "{""a"":{""x"":1,""y"":[1,{""q"":null}]},""k"":""s"",""n"":1e400}".
+Definition C02_ex_patch := B " {""a"":{""x"":null,""z"":{""u"":null,""w"":[null]}},""n"":null,""m"":{""d"":null}} ".
+Definition C02_ex_td : tjson := match parse C02_ex_doc with Some t => t | None => TNull end.
+Definition C02_ex_tp : tjson := match parse C02_ex_patch with Some t => t | None => TNull end.
+
+Example C02_main_theorem_applies :
+  (exists n, api_merge false C02_ex_doc C02_ex_patch = MOut (marshal_node n) /\ nwf n /\
+             aval n = merge_patch (den C02_ex_td) (den C02_ex_tp)) /\
+  (exists out t', api_merge false C02_ex_doc C02_ex_patch = MOut out /\ parse out = Some t' /\
+                  den t' = merge_patch (den C02_ex_td) (den C02_ex_tp) /\ valid_gen out = true).
+Proof.
+  assert (Pd : parse C02_ex_doc = Some C02_ex_td) by (vm_compute; reflexivity).
+  assert (Pp : parse C02_ex_patch = Some C02_ex_tp) by (vm_compute; reflexivity).
+  assert (NN : C02_ex_td <> TNull) by (vm_compute; discriminate).
+  assert (Nd : tnodup C02_ex_td = true) by (vm_compute; reflexivity).
+  assert (Np : tnodup C02_ex_tp = true) by (vm_compute; reflexivity).
+  split.
+  - destruct (C02_merge_refines_rfc C02_ex_doc C02_ex_patch C02_ex_td C02_ex_tp Pd Pp NN Nd Np) as [[S _] | [_ H]].
+    + vm_compute in S. discriminate S.
+    + exact H.
+  - exact (C02_merge_output_bytes C02_ex_doc C02_ex_patch C02_ex_td C02_ex_tp Pd Pp NN Nd Np).
+Qed.
+Print Assumptions C02_main_theorem_applies.
